@@ -23,14 +23,19 @@ _warm = False
 def warm(extra=()):
     """Import in the parent everything a forked command would otherwise import itself."""
     global _warm
+    import importlib
+    for m in extra:
+        try:
+            importlib.import_module(m)
+        except Exception:
+            pass
     if _warm:
         return
     _warm = True
-    import importlib
     for m in ('pandas', 'numpy', 'pyarrow', 'pyarrow.parquet', 'unittest', 'chardet', 'tdda', 'tdda.referencetest',
               'tdda.referencetest.referencetestcase', 'tdda.referencetest.gentest', 'tdda.constraints',
               'tdda.constraints.console', 'tdda.constraints.pd.discover', 'tdda.constraints.pd.verify',
-              'tdda.constraints.pd.detect', 'tdda.rexpy', 'tdda.serial.reader') + tuple(extra):
+              'tdda.constraints.pd.detect', 'tdda.rexpy', 'tdda.serial.reader'):
         try:
             importlib.import_module(m)
         except Exception:
@@ -47,6 +52,9 @@ class Result(object):
 
 def _child(entry, argv, cwd, env, stdin_path, out_path, err_path):
     try:
+        import signal
+        signal.alarm(0)
+        signal.signal(signal.SIGALRM, signal.SIG_DFL)
         if cwd:
             os.chdir(cwd)
         if env:
